@@ -41,7 +41,7 @@ def CMap.erase (m : CMap) (x : String) : CMap := m.filter (fun p => !(p.1 == x))
 def CMap.set (m : CMap) (x : String) (v : Val) : CMap := (x, v) :: CMap.erase m x
 
 /-- `key in a and key in b and a[key] == b[key]` (merge at a conditional) -/
-def CMap.merge (a b : CMap) : CMap := a.filter (fun p => CMap.get b p.1 == some p.2)
+def CMap.merge (a b : CMap) : CMap := a.filter (fun p => CMap.get a p.1 == some p.2 && CMap.get b p.1 == some p.2)
 
 /-! ### atoms -/
 
@@ -233,6 +233,14 @@ def simp (e : Ex) : Option Ex := cpE [] e
 
 /-! ### dead-code removal (`RemoveDeadCodeTransformer`) -/
 
+/-- the condition as `visit_Conditional` tests it: simplified when `use_simplify` (covered class: logical shapes) -/
+def dcCond (useSimp : Bool) (c : Ex) : Option Ex :=
+  if useSimp then (if isLogicalShape c then simp c else none) else some c
+
+/-- the SELECT expression as `visit_MultiConditional` uses it (covered class: atoms and negated integer literals) -/
+def dcSel (useSimp : Bool) (e : Ex) : Option Ex :=
+  if isCmpOperand e then (if useSimp then simp e else some e) else none
+
 mutual
 /-- one statement becomes a list (a pruned conditional is replaced by the statements of the chosen branch, which
 `Transformer.visit_tuple` splices into the enclosing body) -/
@@ -240,13 +248,13 @@ def dcStmt (useSimp : Bool) : Stmt → Option (List Stmt)
   | .ifte c thn els => do
       let t' ← dcStmts useSimp thn
       let e' ← dcStmts useSimp els
-      let c' ← if useSimp then (if isLogicalShape c then simp c else none) else some c
+      let c' ← dcCond useSimp c
       match c' with
       | .lit (.bool true) => pure t'
       | .lit (.bool false) => pure e'
       | _ => pure [.ifte c' t' e']
   | .select e cases dflt => do
-      let e' ← if isCmpOperand e then (if useSimp then simp e else some e) else none
+      let e' ← dcSel useSimp e
       let cs' ← dcCases useSimp cases
       let d' ← dcStmts useSimp dflt
       match e' with
@@ -292,7 +300,7 @@ def dcCrashS (useSimp : Bool) : Stmt → Bool
   | .ifte c thn els =>
       dcCrash useSimp thn || dcCrash useSimp els ||
       (isSingleIf els && (match dcStmts useSimp els with | some [] => true | _ => false) &&
-        !(match (if useSimp then (if isLogicalShape c then simp c else none) else some c) with | some c' => isBoolLit c' | none => true))
+        !(match dcCond useSimp c with | some c' => isBoolLit c' | none => true))
   | .select _ cases dflt => dcCrashC useSimp cases || dcCrash useSimp dflt
   | .doLoop _ _ _ _ body => dcCrash useSimp body
   | .while _ body => dcCrash useSimp body
@@ -493,5 +501,41 @@ def cpUnits : List Fir.Unit → Option (List Fir.Unit)
 
 def cpProgram (p : Program) : Option Program := do
   pure { p with units := ← cpUnits p.units }
+
+/-! ### the domain of the constant-propagation theorem
+
+Loop-free bodies: scalar and array-element assignments, IF/ELSE, PRINT, comments.  `cpOK` is computed along the model's own
+run (it needs the constants map at every statement) and additionally asks that
+* no type-dependent fold fires (`typeFold`),
+* a recorded literal has the declared type of the variable it is assigned to (otherwise the assignment converts the value
+  and the map entry is wrong: known-finding class `cp-literal-type-conversion`). -/
+
+def litTy : Val → Ty
+  | .int _ => .int
+  | .real _ => .real
+  | .bool _ => .logical
+
+mutual
+def cpOKS (arrs : List String) (Γ : String → Option Ty) : Stmt → CMap → Bool
+  | .assign (.var x) r, m =>
+      !arrs.contains x && !typeFold m r &&
+      (match cpE m r with
+       | some (.lit v) => Γ x == some (litTy v)
+       | _ => true)
+  | .assign (.idx _ subs) r, m => !subs.isEmpty && !typeFold m r && subs.all (fun e => !typeFold m e)
+  | .ifte c t e, m => !typeFold m c && cpOK arrs Γ t m && cpOK arrs Γ e m
+  | .print _, _ => true
+  | .nop _ _, _ => true
+  | _, _ => false
+def cpOK (arrs : List String) (Γ : String → Option Ty) : List Stmt → CMap → Bool
+  | [], _ => true
+  | s :: rest, m =>
+      cpOKS arrs Γ s m &&
+      (match cpStmt arrs false s m with
+       | some (_, m1) => cpOK arrs Γ rest m1
+       | none => false)
+end
+
+def declTy (ds : List Decl) (x : String) : Option Ty := (ds.find? (·.name == x)).map (·.ty)
 
 end LokiModel.C32
